@@ -129,6 +129,22 @@ func run(spec *sess.Spec, seed int64, label string, f *Fault, observe func(drv.D
 	for len(net.Queue) > 0 && steps < 100000 {
 		d := net.Queue[0]
 		net.Queue = net.Queue[1:]
+		// timing "after-broadcast": the altered point-to-point message is held back until the same
+		// sender's broadcast of that round has been delivered to the same recipient (the handler then
+		// processes the p2p message directly instead of when the broadcast arrives)
+		if f != nil && f.build != nil && f.Timing == "after-broadcast" && !d.M.Broadcast && matches(f, d) {
+			for i, q := range net.Queue {
+				if q.M.Broadcast && q.M.From == d.M.From && q.M.RoundNumber == d.M.RoundNumber && q.To == d.To {
+					rest := append([]drv.Delivery{}, net.Queue[i+1:]...)
+					net.Queue = append(append(append([]drv.Delivery{}, net.Queue[:i+1]...), d), rest...)
+					d = drv.Delivery{}
+					break
+				}
+			}
+			if d.M == nil {
+				continue
+			}
+		}
 		steps++
 		if observe != nil {
 			observe(d)
